@@ -66,12 +66,12 @@ def check(c):
 
     r = c.rng
     hist = S.corpus_histories(builtins)
-    nrand = 260 if c.tier == 'quick' else 6000
+    nrand = 500 if c.tier == 'quick' else 8000
     for _ in range(nrand):
         hist.append(S.gen_history(r, builtins))
 
     # ---- 1. save --------------------------------------------------------
-    saved = c.impl(S.AREA, [sx([Sym('save')] + h[0]) for h in hist])
+    saved = c.impl(S.AREA, [sx([Sym('save')] + h[0]) for h in hist], timeout=40)
     cases = []
     for h, o in zip(hist, saved):
         p = try_parse(o)
@@ -101,8 +101,8 @@ def check(c):
             lines2.append(sx([Sym('entries'), FIXED, p[1]]))
     m2 = dict(zip(idx2, c.model(S.AREA, lines2, cross=False)))
     # ---- 4. behaviour before / after ------------------------------------
-    live = c.impl(S.AREA, [sx([Sym('live'), k['names'], PROBES, k['stmts'], S.renamed(k['stmts'])]) for k in cases])
-    loaded = c.impl(S.AREA, [sx([Sym('loaded'), k['img'], k['names'], PROBES, S.renamed(k['stmts'])]) for k in cases])
+    live = c.impl(S.AREA, [sx([Sym('live'), k['names'], PROBES, k['stmts'], S.renamed(k['stmts'])]) for k in cases], timeout=40)
+    loaded = c.impl(S.AREA, [sx([Sym('loaded'), k['img'], k['names'], PROBES, S.renamed(k['stmts'])]) for k in cases], timeout=40)
 
     sampled = 0
     for i, k in enumerate(cases):
@@ -141,8 +141,8 @@ def check(c):
             if not (isinstance(p2, list) and p2[0] == b'ok'):
                 why = 'image written after reload is unreadable'
             else:
-                a = collections.Counter(e['bytes'] for e in ents)
-                b = collections.Counter(e['bytes'] for e in S.split_entries(p2))
+                a = collections.Counter(e['canon'] for e in ents)
+                b = collections.Counter(e['canon'] for e in S.split_entries(p2))
                 if a != b:
                     why = 'entries written after reload differ'
         if why is None:
